@@ -26,17 +26,19 @@ Inductive rerr :=
 Inductive rres (A : Type) := ROk (a : A) | RErr (e : rerr).
 Arguments ROk {A}. Arguments RErr {A}.
 
-(* parseSpan(tag, s), with [dflt] standing for the second result when the count is omitted *)
+(* parseSpan(tag, s), with [dflt] standing for the second result when the count is omitted.
+   strconv.Atoi fails on numbers an int cannot hold (atoi64); the sums and differences the readers
+   form afterwards are Go's int arithmetic (wrap64). *)
 Definition parse_span (dflt : Z) (tag s : bytes) : option (Z * Z) :=
   match cut_prefix tag s with
   | None => None
   | Some rest =>
     match cut_byte 44 rest with   (* strings.SplitN(rest, ",", 2) *)
-    | None => match atoi rest with Some lo => Some (lo, dflt) | None => None end
+    | None => match atoi64 rest with Some lo => Some (lo, dflt) | None => None end
     | Some (a, b) =>
-      match atoi a with
+      match atoi64 a with
       | None => None
-      | Some lo => match atoi b with Some hi => Some (lo, hi) | None => None end
+      | Some lo => match atoi64 b with Some hi => Some (lo, hi) | None => None end
       end
     end
   end.
@@ -89,14 +91,14 @@ Definition read_normal_range (spec : bytes) : option (Z * Z) :=
   | None => None
   | Some (lo, hi) =>
     let hi := if read_normal_lhi_is_omitted lo hi then read_normal_lhi_default lo hi else hi in
-    Some (lo, read_normal_lhi_end lo hi)
+    Some (lo, wrap64 (read_normal_lhi_end lo hi))
   end.
 Definition read_normal_range_r (spec : bytes) : option (Z * Z) :=
   match parse_span parse_span_omitted_hi [] spec with
   | None => None
   | Some (lo, hi) =>
     let hi := if read_normal_rhi_is_omitted lo hi then read_normal_rhi_default lo hi else hi in
-    Some (lo, read_normal_rhi_end lo hi)
+    Some (lo, wrap64 (read_normal_rhi_end lo hi))
   end.
 
 Fixpoint read_normal_loop (fuel : nat) (ls : list line) (acc : list (chunk line))
@@ -122,14 +124,14 @@ Fixpoint read_normal_loop (fuel : nat) (ls : list line) (acc : list (chunk line)
             | ROk (xs, ys, rest') =>
               let '(o, llo, rlo) :=
                 match cmd with
-                | CmdA => (Copy, read_normal_add_llo llo, rlo)
+                | CmdA => (Copy, wrap64 (read_normal_add_llo llo), rlo)
                 | CmdC => (Replace, llo, rlo)
-                | CmdD => (Drop, llo, read_normal_del_rlo rlo)
+                | CmdD => (Drop, llo, wrap64 (read_normal_del_rlo rlo))
                 end in
               let is_ac := match cmd with CmdD => false | _ => true end in
               let is_cd := match cmd with CmdA => false | _ => true end in
-              if negb (llen ys =? read_normal_want_add rlo rhi) && is_ac then RErr ECount
-              else if negb (llen xs =? read_normal_want_del llo lhi) && is_cd then RErr ECount
+              if negb (llen ys =? wrap64 (read_normal_want_add rlo rhi)) && is_ac then RErr ECount
+              else if negb (llen xs =? wrap64 (read_normal_want_del llo lhi)) && is_cd then RErr ECount
               else read_normal_loop f rest'
                      (acc ++ [mkChunk [mkEdit o xs ys]
                                 (read_normal_chunk_lstart llo lhi rlo rhi) (read_normal_chunk_lend llo lhi rlo rhi)
@@ -196,14 +198,14 @@ Definition read_uspan (v : variant) (tag s : bytes) : option (Z * Z) :=
   match parse_span (omitted_count v) tag s with
   | None => None
   | Some (lo, n) =>
-    let lo' := if negb (uspan_empty_names_next_line v) && (n =? 0) then lo + 1 else lo in
+    let lo' := if negb (uspan_empty_names_next_line v) && (n =? 0) then wrap64 (lo + 1) else lo in
     Some (lo', n)
   end.
 
 (* ch := &Chunk{LStart: llo, LEnd: llo + lhi, RStart: rlo, REnd: rlo + rhi} *)
 Definition uchunk_of (es : list (edit line)) (llo lhi rlo rhi : Z) : chunk line :=
-  mkChunk es (read_uchunk_lstart llo lhi rlo rhi) (read_uchunk_lend llo lhi rlo rhi)
-             (read_uchunk_rstart llo lhi rlo rhi) (read_uchunk_rend llo lhi rlo rhi).
+  mkChunk es (read_uchunk_lstart llo lhi rlo rhi) (wrap64 (read_uchunk_lend llo lhi rlo rhi))
+             (read_uchunk_rstart llo lhi rlo rhi) (wrap64 (read_uchunk_rend llo lhi rlo rhi)).
 
 Inductive uchunk_res :=
 | UEof                                               (* io.EOF before a chunk header *)
